@@ -343,10 +343,38 @@ def run(ck: Check):
         if 0 <= tot < 86400:
             f = r.choice([0, 1, 500000000, r.randint(1, 999999999)])
             add({"op": "time_cmp", "a": [h, mi, se, f, off], "b": [tot // 3600, tot % 3600 // 60, tot % 60, f, r.choice([0, None])]}, kind="time_cmp")
-        a = g_value_datetime(r, small=True)
-        b = near_pairs(r, a) if r.random() < 0.6 else g_value_datetime(r, small=True)
+        small = r.random() < 0.7          # the rest: any year (more than four digits, far negative)
+        a = g_value_datetime(r, small=small)
+        b = near_pairs(r, a) if r.random() < 0.6 else g_value_datetime(r, small=small)
         add({"op": "datetime_cmp", "a": a, "b": b}, kind="datetime_cmp")
-    # the witnesses of the refutation lemmas
+        if r.random() < 0.3:
+            # one instant written with two offsets, possibly on two calendar days / months / years
+            y = r.choice([-4, -1, 0, 1, 4, 100, 400, 1999, 2000, r.randint(-5000, 5000)])
+            m = r.randint(1, 12)
+            d = r.choice([1, mlen(y, m)])
+            h, mi = r.choice([0, 23, r.randint(0, 23)]), r.randint(0, 59)
+            off = r.choice([840, -840, 60, -60, 30, -330, r.randint(-840, 840)])
+            tot = h * 60 + mi - off                      # minutes of the UTC day, may leave [0, 1440)
+            y2, m2, d2 = y, m, d
+            while tot < 0:
+                tot += 1440
+                d2 -= 1
+                if d2 < 1:
+                    m2 -= 1
+                    if m2 < 1:
+                        m2, y2 = 12, y2 - 1
+                    d2 = mlen(y2, m2)
+            while tot >= 1440:
+                tot -= 1440
+                d2 += 1
+                if d2 > mlen(y2, m2):
+                    d2, m2 = 1, m2 + 1
+                    if m2 > 12:
+                        m2, y2 = 1, y2 + 1
+            se, f = r.randint(0, 59), r.choice([0, 1, 999999999, r.randint(0, 999999999)])
+            add({"op": "datetime_cmp", "a": [y, m, d, h, mi, se, f, off],
+                 "b": [y2, m2, d2, tot // 60, tot % 60, se, f, r.choice([0, None])]}, kind="datetime_cmp")
+    # the witnesses of the former refutation lemmas (regressions of the repaired C06-F2 / F3)
     add({"op": "datetime_cmp", "a": [2001, 2, 28, 23, 0, 0, 0, 0], "b": [2001, 3, 1, 0, 30, 0, 0, 120]}, kind="datetime_cmp")
     add({"op": "datetime_cmp", "a": [2001, 1, 1, 0, 0, 0, 1, None], "b": [2001, 1, 1, 0, 0, 0, 2, None]}, kind="datetime_cmp")
     add({"op": "datetime_cmp", "a": [2001, 1, 1, 24, 0, 0, 0, None], "b": [2001, 1, 2, 0, 0, 0, 0, None]}, kind="datetime_cmp")
